@@ -446,6 +446,8 @@ def cases(tier, what="forward"):
                     add("batch_norm", shp, A, pats=pats)
                     lf = "layer2d" if len(s) == 4 else "layer1d"
                     add("batch_norm", shp, A, pats=pats, form=lf)
+                    if fw and mom == 0.1:        # data with a large mean and unit spread
+                        add("batch_norm", shp, A, pats=["offset"] + pats[1:]); add("batch_norm", shp, A, pats=["offset"] + pats[1:], form=lf)
     # --- dropout (controlled source: every keep/drop pattern on 3 elements, boundary excluded)
     for p in (0.0, 0.3, 0.5, 1.0):
         for mask in itertools.product((0, 1), repeat=3):
